@@ -17,10 +17,10 @@ COMMON_ASSUME = [
 CPLX_ENV = {"SLUSYM_NAMEDIV": "1"}   # complex: purify divisions (q*y == x) -- helps nlsat on Smith's quotient
 
 
-def fcase(m, n, pat, colperm=0, permidx=0, sym=0, tune="t111", umode=0, flags=0, symcols=-1):
+def fcase(m, n, pat, colperm=0, permidx=0, sym=0, tune="t111", umode=0, flags=0, symcols=-1, lwork=0, woff=0, failat=0):
     t = T[tune] if isinstance(tune, str) else tune
     if C.structural_rank(m, n, pat) < n: flags |= 2
-    return (m, n, hex(pat), colperm, permidx, sym) + tuple(t) + (umode, flags, symcols)
+    return (m, n, hex(pat), colperm, permidx, sym) + tuple(t) + (umode, flags, symcols) + ((lwork, woff, failat) if (lwork or failat) else ())
 
 
 def reach_cases(tier):
@@ -317,7 +317,47 @@ def check_C18(chk, tier):
     e1.run_harnesses(chk, hs, "C18 argument screening", "n <= 2, nrhs <= 2, lda <= 3, every enum/tag/dimension/lwork/equed/scale-factor corruption; unwind 3 (all loops bounded by n <= 2)")
 
 
-REGISTRY = {"C18": check_C18, "C05": check_C05, "C06": check_C06, "C01": check_C01, "C02": check_C02, "C03": check_C03, "C04": check_C04}
+# ------------------------------------------------------------------------------------------------ C08 workspace
+def c08_e1(chk, tier):
+    hs = []
+    precs_ = ["d"] if tier == "quick" else ["d", "s", "z", "c"]
+    for prec in precs_:
+        P = "-DPREC_" + prec.upper(); mem = REPO + "/SRC/%smemory.c" % prec
+        hs.append(e1.Harness("c08_%s_init" % prec, [E1H + "h08.c", mem, REPO + "/SRC/memory.c"], defs=[P, "-DLMAX=%d" % (640 if tier == "quick" else 1024)], unwind=4, unwindset={"main.0": 12, "main.1": 12, "main.2": 12}, timeout=1500))
+        hs.append(e1.Harness("c08_%s_grow1" % prec, [E1H + "h08.c", mem], defs=[P, "-DSTEPS=1", "-DSTUB_COPIES", "-DLMAX=400"], unwind=4,
+                             unwindset={"main.0": 12, "main.1": 12, "main.2": 12, "main.3": 5, "main.4": 5, "main.5": 5, "main.6": 6, "main.7": 5, "main.8": 2, "dexpand.0": 12, "dexpand.1": 12}, timeout=1500))
+    hs.append(e1.Harness("c08_d_init_idx64", [E1H + "h08.c", REPO + "/SRC/dmemory.c"], defs=["-DPREC_D", "-DSTUB_COPIES", "-DLMAX=400", "-DXSDK_INDEX_SIZE=64"], unwind=4, unwindset={"main.0": 12, "main.1": 12, "main.2": 12}, timeout=1500))
+    if tier != "quick":
+        hs.append(e1.Harness("c08_d_grow2", [E1H + "h08.c", REPO + "/SRC/dmemory.c"], defs=["-DPREC_D", "-DSTEPS=2", "-DSTUB_COPIES", "-DLMAX=400"], unwind=4,
+                             unwindset={"main.0": 12, "main.1": 12, "main.2": 12, "main.3": 5, "main.4": 5, "main.5": 5, "main.6": 6, "main.7": 5, "main.8": 3, "dexpand.0": 12, "dexpand.1": 12}, timeout=3000))
+    only = lambda h, f: f["desc"].startswith("C08") or "dereference" in f["desc"] or "memory-leak" in f["desc"]
+    e1.run_harnesses(chk, hs, "C08 allocator (all lwork)", "lwork in [1,640] (init) / [1,400] (init + 1 growth request of arbitrary type/next), alignment 0/4, n<=2, annz<=n*n, fill<=3, panel<=2, maxsuper<=2; 32- and 64-bit int_t",
+                     violation_filter=only, unwinding_is_violation=True)
+
+
+def check_C08(chk, tier):
+    chk.assumptions += COMMON_ASSUME + ["E1: pointer bookkeeping is decided for every lwork in the stated range; same-object/pointer-overflow reports caused by the (intptr_t) alignment casts are filtered (only C08 assertions, dereference failures and unwinding failures count)",
+                                        "E1 growth harness stubs the content-moving routines (user_bcopy, copy_mem_*): content preservation is C07's subject",
+                                        "E2: the caller workspace is an exact-size region inside a 2 MB guarded arena; every store of library code is checked against it and the guards carry canaries"]
+    c08_e1(chk, tier)
+    # E2 pipeline confirmation: ?gstrf with a caller workspace of every length (step 1 around the requirement), symbolic trailing column
+    cs = []
+    shapes = [(3, 511, "t122"), (4, C.band(4, 1, 1), "t212")] if tier == "quick" else [(3, 511, "t122"), (3, 511, "t1nn_f1"), (4, C.band(4, 1, 1), "t212"), (5, C.dense(5, 5), "tn1n"), (6, C.band(6, 2, 2), "t122")]
+    for n_, pat, tn in shapes:
+        t = T[tn]; fillT = tuple(t[:5]) + (2,)
+        hi = 1400 if n_ <= 4 else 4000
+        for lw in list(range(1, hi, 1 if tier != "quick" else 3)) + list(range(hi, hi + 64, 7)):
+            cs.append(fcase(n_, n_, pat, tune=fillT, symcols=1 << (n_ - 1), lwork=lw, woff=(lw // 5) % 2 * 4))
+        for k in range(1, 40 if tier == "quick" else 80): cs.append(fcase(n_, n_, pat, tune=tuple(t[:5]) + (1,), symcols=1 << (n_ - 1), failat=k))
+    for prec in (["d"] if tier == "quick" else ["d", "z"]):
+        run_phase(chk, "gstrf-user-workspace/" + prec, H + "h_factor.c", cs, ["C08.", "C02.", "C03."], prec=prec, budget_s=200 if tier == "quick" else 1800, monitor_ids=("ws_viol",), crash_is_violation=True,
+                  bounds="?gstrf with caller workspace of every length in the stated sweep (n<=4 quick / n<=6 thorough), and library allocation failing at the k-th request (k<40/80)", validate_samples=0)
+    # size query through the expert driver
+    qs = [xcase(2, 15, lworkmode=-1, equil=e, storage=st) for e in (0, 1) for st in (0, 1)] + [xcase(3, 511, lworkmode=-1, colperm=cp) for cp in (0, 2, 3)]
+    run_phase(chk, "gssvx-size-query", H + "h_gssvx.c", qs, ["C08."], prec="d", budget_s=100, bounds="lwork = -1 through ?gssvx, n<=3", validate_samples=0)
+
+
+REGISTRY = {"C08": check_C08, "C18": check_C18, "C05": check_C05, "C06": check_C06, "C01": check_C01, "C02": check_C02, "C03": check_C03, "C04": check_C04}
 
 
 def run(pid, tier):
